@@ -262,6 +262,9 @@ def bounded(rep):
     for res in R.argument_container_cases():
         rep.add_bounded(f"{P}/bounded.{res['name']}", res['ok'], res['detail'], replay={'kind': 'c04.arguments', 'name': res['name']})
         n += 1
+    for res in R.backendless_adsorbate_cases():
+        rep.add_bounded(f"{P}/bounded.{res['name']}", res['ok'], res['detail'], replay={'kind': 'c04.backendless', 'name': res['name']})
+        n += 1
     for res in R.fill_rule_history_cases():
         rep.add_bounded(f"{P}/bounded.{res['name']}", res['ok'], res['detail'], replay={'kind': 'c04.fill_history', 'name': res['name']})
         n += 1
